@@ -204,6 +204,10 @@ func (in *Interp) concretize(t *Term, lo, hi int) int {
 		if t.sort.K == SBV {
 			v = signedVal(t.c, t.sort.W)
 		}
+		if in.run.cfg.Concrete != nil && (!v.IsInt64() || v.Int64() < int64(lo) || v.Int64() > int64(hi)) {
+			// translator validation with a perturbed input: zzConcrete states the range as a bound
+			in.abort("assume", "zzConcrete: value outside the stated range")
+		}
 		return int(v.Int64())
 	}
 	for v := lo; v <= hi; v++ {
